@@ -48,6 +48,9 @@ package dns
 //@   opt no-safety
 //@   requires c != nil && m != nil && co != nil
 //@   exit id: err == nil ==> r != nil && r.Id == m.Id
+//@   callsite "WriteMsg" query: arg0 == co && arg1 == m
+//@   callsite "ReadMsg" after: arg0 == co && called("WriteMsg") && callres("WriteMsg") == nil
+//@   exit werr: called("WriteMsg") && callres("WriteMsg") != nil ==> err != nil && r == nil
 
 // WriteMsg: the octets handed to Write are exactly the ones produced for this message - signed with the stored
 // request MAC (replaced by the new one) when the message carries a TSIG stub (and, on the server, a provider is
